@@ -26,7 +26,7 @@ Local Open Scope list_scope.
 
 Definition ierr := Z.
 
-Definition out_entry := (string * (ty * N))%type.      (* Output { name, value_type, vid } *)
+Notation out_entry := (string * (ty * N))%type.      (* Output { name, value_type, vid } *)
 Record ixstate := mkSt {
   st_vids : list (N * N);          (* vid -> identity (root vid) of the owning component *)
   st_eids : list (N * bool);       (* eid -> EdgeKind: false = Regular, true = Fold *)
